@@ -220,6 +220,9 @@ type vfC01Conf struct {
 	// default); cacheSeen then remembers what the upstream answered.
 	CacheOn   bool
 	cacheSeen map[string][]string
+	// focus are names that queries prefer: the names of rules a run-time
+	// change has just taken out of force.
+	focus []string
 }
 
 func vfTexts(rs []vfRule) (ss []string) {
@@ -648,6 +651,9 @@ func vfDrawC01Query(t *rapid.T, c *vfC01Conf, label string) (q *vfC01Query) {
 	for _, id := range c.ServiceIDs {
 		subjects = append(subjects, vfServiceDomains[id]...)
 		subjects = append(subjects, vfServiceDomains[id]...)
+	}
+	for _, f := range c.focus {
+		subjects = append(subjects, f, f, f)
 	}
 	if c.Client != nil {
 		for _, id := range c.Client.ServiceIDs {
